@@ -70,7 +70,12 @@ def run(pid, tier, seed, facts_files, work, replay, t0, here, repo):
 
     all_obs = list(obs.values())
     # floors: every rule family must have produced at least its confirmed number of instances
-    floors = spec.get("floors", {})
+    floors = {}
+    fp = os.path.join(here, "rules", "floors.json")
+    if os.path.exists(fp):
+        floors = json.load(open(fp)).get(pid, {})
+    if not floors:
+        floors = spec.get("floors", {})
     counts = {}
     for o in all_obs:
         counts[o.rule] = counts.get(o.rule, 0) + 1
